@@ -226,4 +226,16 @@ Variable norm : bytes -> option bytes.   (* ada against the page URL, scheme/hos
 Definition requested (c : cfg) (s : pstate) (page : bytes) (dom : list node) : list bytes :=
   flat_map (fun raw => opt_list (norm (trim_quotes raw))) (post_assets c s page dom).
 
+(* preprocess() on the children of the page item (seencheck off, no scope filter): every child is
+   normalised against its PARENT item's URL - [norm] above is that parser with the page as
+   parent -, a child that cannot be normalised is removed, and so is a child whose path is empty
+   or "/" ("just a domain"); DedupeItems keeps one of equal URLs and drops a fresh child whose
+   URL is that of a non-seed item already in the tree ([tree]: the redirect hops below the seed
+   and the page itself when it is not the seed); a request is built for each survivor.
+   [is_root u]: URL.GetParsed().Path of u is "" or "/". *)
+Variable is_root : bytes -> bool.
+Definition pre_requests (tree : list bytes) (c : cfg) (s : pstate) (page : bytes) (dom : list node)
+  : list bytes :=
+  filter (fun u => negb (is_root u) && negb (mem u tree)) (requested c s page dom).
+
 End Extract.
